@@ -92,6 +92,9 @@ pub const A_POP_EMPTY: u16 = 203;
 pub const A_NOTIFY_OFF: u16 = 210;
 pub const A_NOTIFY_ON: u16 = 211;
 pub const A_WAIT_POP: u16 = 220;
+/// The same with a device that is busy when notified: it looks at the ring only while the driver
+/// busy-waits, or after the helper has returned.
+pub const A_WAIT_POP_LATE: u16 = 221;
 pub const A_ADD_OOM0: u16 = 300;
 
 pub fn shapes_for_cfg(n: usize, reduced: bool) -> Vec<(usize, usize)> {
@@ -435,6 +438,7 @@ impl<const N: usize> World<N> {
         }
         if self.cfg.wait_pop {
             v.push(A_WAIT_POP);
+            v.push(A_WAIT_POP_LATE);
         }
         if self.cfg.oom && self.cfg.indirect {
             for (i, (ni, no)) in shapes_for_cfg(N, self.cfg.reduced).iter().enumerate() {
@@ -478,6 +482,7 @@ impl<const N: usize> World<N> {
             A_NOTIFY_OFF => "set_dev_notify(false)".into(),
             A_NOTIFY_ON => "set_dev_notify(true)".into(),
             A_WAIT_POP => "add_notify_wait_pop(1 readable, 1 writable), device serves it when notified".into(),
+            A_WAIT_POP_LATE => "add_notify_wait_pop(1 readable, 1 writable), device busy when notified: serves while the driver waits or after the call".into(),
             x if x >= A_ADD_OOM0 && x < A_ADD_OOM0 + 64 => {
                 let s = shapes_for_cfg(N, reduced);
                 match s.get((x - A_ADD_OOM0) as usize) {
@@ -509,7 +514,8 @@ impl<const N: usize> World<N> {
                 let t = self.outs.first().map(|o| o.token).unwrap_or(0);
                 self.do_pop_fail(t, Error::NotReady, check)
             }
-            A_WAIT_POP => self.do_wait_pop(check),
+            A_WAIT_POP => self.do_wait_pop(check, false),
+            A_WAIT_POP_LATE => self.do_wait_pop(check, true),
             A_NOTIFY_OFF | A_NOTIFY_ON => {
                 let en = a == A_NOTIFY_ON;
                 let _ = self.traced(check, |q| q.set_dev_notify(en));
@@ -650,7 +656,7 @@ impl<const N: usize> World<N> {
     /// device until its completion has been consumed, so its descriptors must not be handed out
     /// again (checked by the submission oracles of the following steps and by the free-list
     /// integrity check).
-    fn do_wait_pop(&mut self, check: bool) {
+    fn do_wait_pop(&mut self, check: bool, late: bool) {
         use std::cell::RefCell;
         use std::rc::Rc;
         let held = self.held();
@@ -690,7 +696,11 @@ impl<const N: usize> World<N> {
         let serve_later = serve.clone();
         {
             let mut s1 = serve.clone();
-            crate::dev::set_notify_handler(Some(Box::new(move |_q| s1())));
+            crate::dev::set_notify_handler(Some(Box::new(move |_q| {
+                if !late {
+                    s1()
+                }
+            })));
             let mut s2 = serve;
             let spins = Rc::new(RefCell::new(0u32));
             crate::mmio::set_spin_handler(Some(Box::new(move |_site| {
@@ -756,6 +766,7 @@ impl<const N: usize> World<N> {
                     }
                     if !elems_ok {
                         viol("C01", "element-mismatch", format!("the chain published by add_notify_wait_pop reads {:?}, not the caller's two buffers", chain.elems));
+                        viol("C02", "available-chain-disturbed", format!("when the device looked at the entry published by add_notify_wait_pop (returned {:?}) its chain read {:?}, not the caller's two buffers: an entry below the available index must stay completely written until the device has used it", res, chain.elems));
                     }
                     for &d in &chain.descs {
                         if let Some(o) = owners[d as usize] {
@@ -951,6 +962,7 @@ impl<const N: usize> World<N> {
         let Some(&(token, len)) = self.fifo.front() else { return };
         let oi = self.outs.iter().position(|o| o.token == token).unwrap();
         let log_before = hal::with(|h| h.log.len());
+        let used_pos_before = self.q.as_ref().map(|q| q.verif_snapshot().last_used_idx);
         let res = {
             let o = &mut self.outs[oi];
             let in_refs: Vec<&[u8]> = o.ins.iter().map(|b| unsafe { std::slice::from_raw_parts(b.as_ptr(), b.len()) }).collect();
@@ -963,6 +975,16 @@ impl<const N: usize> World<N> {
             }
             Ok(Err(e)) => {
                 viol("C03", "pop-refused", format!("pop_used({}) of the next completion failed with {:?}", token, e));
+                // C04: whatever the call returned, a completion that has been consumed (the
+                // driver moved past the used element) must have unshared its buffers.
+                let used_pos_after = self.q.as_ref().map(|q| q.verif_snapshot().last_used_idx);
+                if used_pos_after != used_pos_before {
+                    let o = &self.outs[oi];
+                    let still: usize = hal::with(|h| o.ins.iter().chain(o.outs.iter()).filter(|b| h.shares.iter().any(|s| s.live && s.vaddr == b.as_ptr() as usize && s.len == b.len())).count());
+                    if still != 0 {
+                        viol("C04", "consumed-without-unshare", format!("pop_used({}) returned {:?} and moved past the used element, but {} of the chain's buffers are still shared", token, e, still));
+                    }
+                }
             }
             Ok(Ok(got)) => {
                 tag("pop:ok");
